@@ -515,18 +515,37 @@ def _staterror_widths(ctx, rid, repo):
         ctx.unrecognised(rid, fin, "staterror builder", f"not interpretable: {type(e).__name__}: {e}")
 
 
+def real_paramsets(repo, spec):
+    """{name: REAL parameter-set object} built by interpreting parameters/paramsets.py: spec maps name -> (class name, n, extra kwargs).
+    What a set looks like when no widths are configured is the classes' own business."""
+    from ..objmodel import World
+    psm = repo.module("src/pyhf/parameters/paramsets.py")
+    wp = World({"__strict__": True}, module_env={"pyhf": Obj("pyhf", {"default_backend": Obj("default_backend")}), "exceptions": Obj("exceptions")})
+    for c_ in psm.classes.values():
+        wp.add_class(c_)
+    out = {}
+    for name, (cls_, n, extra) in spec.items():
+        out[name] = wp.new(psm.classes[cls_], [], {"name": name, "n_parameters": Poly.const(n), "inits": [Poly.const(1)] * n, "bounds": [(Poly.const(0), Poly.const(10))] * n, "fixed": False, "is_scalar": False, **extra})
+        out[name].closed = True  # a finished object: reading an attribute its constructor did not set is an AttributeError
+    return out
+
+
 def _constraint_tables(ctx, rid, repo):
     """Interpret both combined-constraint constructors on a four-paramset configuration whose auxdata order is
     not alphabetical, whose Poisson sets have auxdata != factors (a measurement override) and whose Gaussian sets
     are one with explicit widths and one without: the constant tables (data indices, widths / rate factors, in
     batch form too) must be those of the configuration."""
     at = Poly.atom
-    psets = {
-        "zg": Obj("zg", {"n_parameters": Poly.const(2), "pdf_type": "normal", "sigmas": [at("s0"), at("s1")], "auxdata": [at("xg0"), at("xg1")]}, closed=True),
-        "mp": Obj("mp", {"n_parameters": Poly.const(2), "pdf_type": "poisson", "factors": [at("f0"), at("f1")], "auxdata": [at("a0"), at("a1")]}, closed=True),
-        "ag": Obj("ag", {"n_parameters": Poly.const(1), "pdf_type": "normal", "auxdata": [at("xg2")]}, closed=True),
-        "bp": Obj("bp", {"n_parameters": Poly.const(1), "pdf_type": "poisson", "factors": [at("f2")], "auxdata": [at("a2")]}, closed=True),
-    }
+    try:
+        psets = real_paramsets(repo, {
+            "zg": ("constrained_by_normal", 2, {"sigmas": [at("s0"), at("s1")], "auxdata": [at("xg0"), at("xg1")]}),
+            "mp": ("constrained_by_poisson", 2, {"factors": [at("f0"), at("f1")], "auxdata": [at("a0"), at("a1")]}),
+            "ag": ("constrained_by_normal", 1, {"auxdata": [at("xg2")]}),
+            "bp": ("constrained_by_poisson", 1, {"factors": [at("f2")], "auxdata": [at("a2")]}),
+        })
+    except (Undecided, KeyError, TypeError, ValueError, IndexError, AttributeError) as e:
+        ctx.unrecognised(rid, repo.module("src/pyhf/parameters/paramsets.py"), "parameter-set classes", f"not interpretable: {type(e).__name__}: {e}")
+        return
     order = ["zg", "mp", "ag", "bp"]
     for cname, kind, want_names, want_data, tab_attr, want_tab in (
         ("gaussian_constraint_combined", "normal", ["zg", "ag"], [0, 1, 4], "sigmas", ["s0", "s1", "1"]),
@@ -615,12 +634,16 @@ def _constraint_template(ctx, rid, repo):
 
         return listnp.wrap(rec(a[0], ()))
 
-    psets = {
-        "g1": Obj("g1", {"n_parameters": c(2), "pdf_type": "normal", "sigmas": [at("s0"), at("s1")], "auxdata": [at("ng0"), at("ng1")]}, closed=True),
-        "p1": Obj("p1", {"n_parameters": c(2), "pdf_type": "poisson", "factors": [at("f0"), at("f1")], "auxdata": [at("np0"), at("np1")]}, closed=True),
-        "g2": Obj("g2", {"n_parameters": c(1), "pdf_type": "normal", "auxdata": [at("ng2")]}, closed=True),
-        "p2": Obj("p2", {"n_parameters": c(1), "pdf_type": "poisson", "factors": [at("f2")], "auxdata": [at("np2")]}, closed=True),
-    }
+    try:
+        psets = real_paramsets(repo, {
+            "g1": ("constrained_by_normal", 2, {"sigmas": [at("s0"), at("s1")], "auxdata": [at("ng0"), at("ng1")]}),
+            "p1": ("constrained_by_poisson", 2, {"factors": [at("f0"), at("f1")], "auxdata": [at("np0"), at("np1")]}),
+            "g2": ("constrained_by_normal", 1, {"auxdata": [at("ng2")]}),
+            "p2": ("constrained_by_poisson", 1, {"factors": [at("f2")], "auxdata": [at("np2")]}),
+        })
+    except (Undecided, KeyError, TypeError, ValueError, IndexError, AttributeError) as e:
+        ctx.unrecognised(rid, repo.module("src/pyhf/parameters/paramsets.py"), "parameter-set classes", f"not interpretable: {type(e).__name__}: {e}")
+        return
     # two configurations with the SAME numbers of Gaussian / Poisson auxiliary data in different interleavings, built one
     # after the other in one world (module-level state of pdf.py / constraints.py shared): the second model must not
     # inherit anything from the first.  parameter order != auxiliary order in both.
